@@ -73,6 +73,13 @@ uint64_t Cmd::definitionHash() const {
   for (auto& s : outputs) h.str(s);
   if (!signature.empty() && tool == "shell") {
     h.str(signature);
+    for (auto& a : argv()) h.str(a);
+    for (auto& kv : env) {
+      h.str(kv.first);
+      h.str(kv.second);
+    }
+    h.str(deps);
+    h.str(style);
   } else {
     for (auto& a : argv()) h.str(a);
     h.u64(env.size());
@@ -216,7 +223,19 @@ std::string Desc::toYaml() const {
         y += "    deps: " + yamlQuote(c.deps) + "\n";
         if (!c.style.empty()) y += "    deps-style: " + c.style + "\n";
       }
-      if (!c.signature.empty()) y += "    signature: " + yamlQuote(c.signature) + "\n";
+      if (!c.signature.empty()) {
+        // An explicit signature replaces the computed one, so the client must make it cover everything
+        // that matters to the command: the generator's explicit signatures embed a digest of those parts.
+        util::Hasher h;
+        for (auto& a : c.argv()) h.str(a);
+        for (auto& kv : c.env) {
+          h.str(kv.first);
+          h.str(kv.second);
+        }
+        h.str(c.deps);
+        h.str(c.style);
+        y += "    signature: " + yamlQuote(c.signature + "-" + std::to_string(h.get() % 1000000007ULL)) + "\n";
+      }
       if (!c.workdir.empty()) y += "    working-directory: " + yamlQuote(c.workdir) + "\n";
       if (c.always) y += "    always-out-of-date: \"true\"\n";
       if (c.allowMissing) y += "    allow-missing-inputs: \"true\"\n";
